@@ -21,22 +21,24 @@ MANIFEST = {
             "oracle for a failing input is the executable statement spec_okb, proved to imply the readable Spec.",
     "note": "PARTIAL: Twisted's Deferred (callback chain, AlreadyCalledError) and its unhandled-error logging "
             "(DebugInfo.__del__, garbage collection, log publisher) are modelled, not verified; 'not logged as "
-            "unhandled' is the model's handled flag, validated against the real GC/log path on every case. Chained "
-            "(paused) Deferreds are outside the model. Trusted: Coq kernel + vm_compute; the harness. All theorems "
+            "unhandled' is the model's handled flag, validated against the real GC/log path on every case. "
+            "Trusted: Coq kernel + vm_compute; the harness. All theorems "
             "closed under the global context.",
     "technique": "Coq proof (case analysis on the Deferred state, simulation between a history and its erasure) + "
                  "model/implementation correspondence in coqc on real Deferreds",
     "ref": "6 C20",
 }
 RULE = ("histories of up to 7 operations (match with has_no_result/succeeded(m)/failed(m), m in Always/Never/Is k; "
-        "callback(v); errback(e); addCallbacks with pass/constant/raise/recording functions; extract_result) on one "
+        "callback(v); errback(e); addCallbacks with pass/constant/raise/recording functions or one returning an "
+        "unfired Deferred; pause/unpause; firing the Deferred the chain waits for; extract_result) on one "
         "fresh real Deferred: all histories to length 4 over a reduced alphabet (subsampled), each Deferred state "
         "with 0-3 callbacks x all matchers, random longer ones; plus SynchronousDeferredRunTest on every stage "
         "position x return/raise; non-trivial = at least one match and one fire/fail and one callback; distinct = "
         "distinct JSON")
 TRUSTED = ["PARTIAL: Twisted's Deferred, DebugInfo.__del__/GC and the log publisher are modelled, not verified",
            "the state of a Deferred is observed by inspecting .called/.result of the real object"]
-ASSUMPTIONS = ["callbacks in the histories never return Deferreds (no chaining/pausing)",
+ASSUMPTIONS = ["a callback returns at most a fresh unfired Deferred (one level of chaining); unpause() is only "
+               "called after a pause() of the same history",
                "values and exceptions are drawn from small pools and compared by token"]
 EXPLANATION = ("Theorems in coq/Props/C20.v; correspondence: real matchers on real Deferreds (states, callbacks seen, "
                "unhandled-error log after gc.collect()) against coq/Model/DeferredMatchers.v, each history also run "
@@ -71,12 +73,21 @@ class _Ctx:
         return ["val", 98]
 
     def state(self, d):
-        if not hasattr(d, "result"):
+        if not d.called:
             return ["unfired"]
+        if d.paused:
+            return ["waiting"]         # fired, but the chain is paused or waits for another Deferred
         return self.tok(d.result)
 
-    def cb(self, spec, log):
+    def cb(self, spec, log, auxs=None):
         kind = spec[0]
+        if kind == "wait":
+            def w(x):
+                from twisted.internet import defer
+                a = defer.Deferred()
+                auxs.append(a)
+                return a
+            return w
         if kind == "pass":
             return lambda x: x
         if kind == "const":
@@ -150,6 +161,8 @@ def _run_history(ctx, ops, want_erased):
         log = []
         per = []
         erased = []
+        auxs = []          # unfired Deferreds returned by "wait" callbacks (at most one outstanding)
+        pauses = 0         # pause() calls of this history still in force
         for op in ops:
             before, cbefore = ctx.state(d), bool(d.called)
             k = op[0]
@@ -170,7 +183,25 @@ def _run_history(ctx, ops, want_erased):
                 except defer.AlreadyCalledError:
                     out = ["already"]
             elif k == "add":
-                d.addCallbacks(ctx.cb(op[1], log), ctx.cb(op[2], log))
+                d.addCallbacks(ctx.cb(op[1], log, auxs), ctx.cb(op[2], log, auxs))
+                out = ["done"]
+            elif k == "pause":
+                d.pause()
+                pauses += 1
+                out = ["done"]
+            elif k == "unpause":
+                if pauses:
+                    pauses -= 1
+                    d.unpause()
+                out = ["done"]
+            elif k == "resume":
+                if auxs:
+                    a = auxs.pop(0)
+                    if op[1] == "val":
+                        a.callback(ctx.vals[op[2]])
+                    else:
+                        a.errback(ctx.excs[op[2]]())
+                    a = None
                 out = ["done"]
             elif k == "extract":
                 try:
@@ -187,6 +218,7 @@ def _run_history(ctx, ops, want_erased):
                         "cafter": bool(d.called)})
         final, called = ctx.state(d), bool(d.called)
         del d
+        del auxs[:]
         mm = None
         gc.collect()
         unhandled = any(e.get("isError") or e.get("log_failure") is not None for e in events)
@@ -300,7 +332,7 @@ def _drive_sync(ctx, case):
 # ---------------- Gallina ----------------
 def t_cb(c):
     return {"pass": "CPass", "const": "(CConst %s)", "raise": "(CRaise %s)", "rec": "(CRec %s)",
-            "recnone": "(CRecNone %s)"}[c[0]] % tuple(q.nat(a) for a in c[1:])
+            "recnone": "(CRecNone %s)", "wait": "CWait"}[c[0]] % tuple(q.nat(a) for a in c[1:])
 
 
 def t_inner(i):
@@ -323,11 +355,19 @@ def t_op(op):
         return "(OFail %s)" % q.nat(op[1])
     if k == "add":
         return "(OAdd %s %s)" % (t_cb(op[1]), t_cb(op[2]))
+    if k == "pause":
+        return "OPause"
+    if k == "unpause":
+        return "OUnpause"
+    if k == "resume":
+        return "(OResume %s)" % t_dres(op[1:])
     return "OExtract"
 
 
 def t_state(s):
-    return "SUnfired" if s[0] == "unfired" else "(%s %s)" % ("SVal" if s[0] == "val" else "SErr", q.nat(s[1]))
+    if s[0] in ("unfired", "waiting"):
+        return "SUnfired" if s[0] == "unfired" else "SWaiting"
+    return "(%s %s)" % ("SVal" if s[0] == "val" else "SErr", q.nat(s[1]))
 
 
 def t_dres(s):
@@ -391,19 +431,25 @@ def perturb(case, o):
 MATCHERS = [["noresult"], ["succeeded", ["always"]], ["failed", ["always"]], ["succeeded", ["never"]],
             ["failed", ["never"]], ["succeeded", ["is", 3]], ["succeeded", ["is", 0]], ["failed", ["is", 1]],
             ["failed", ["is", 2]]]
-CBS = [["pass"], ["const", 0], ["const", 3], ["raise", 1], ["rec", 1], ["rec", 2], ["recnone", 3]]
+CBS = [["pass"], ["const", 0], ["const", 3], ["raise", 1], ["rec", 1], ["rec", 2], ["recnone", 3], ["wait"]]
 
 
 def rand_op(rng):
     r = rng.random()
-    if r < 0.35:
+    if r < 0.33:
         return ["match", rng.choice(MATCHERS)]
-    if r < 0.5:
+    if r < 0.46:
         return ["fire", rng.choice([0, 0, 1, 2, 3, 4, 5, 6])]
-    if r < 0.62:
+    if r < 0.56:
         return ["fail", rng.randrange(N_EXC)]
-    if r < 0.95:
+    if r < 0.80:
         return ["add", rng.choice(CBS), rng.choice(CBS)]
+    if r < 0.86:
+        return ["pause"]
+    if r < 0.91:
+        return ["unpause"]
+    if r < 0.97:
+        return ["resume", "val", rng.choice([0, 3, 6])] if rng.random() < 0.6 else ["resume", "err", rng.randrange(N_EXC)]
     return ["extract"]
 
 
@@ -426,6 +472,17 @@ def generate(rng, tier):
     hist([["fire", 3], ["extract"], rec(1)])
     hist([["fail", 0], ["extract"], rec(1)])
     hist([["fire", 3], ["fire", 4]])
+    # fired, but no result yet: paused chain / waiting for a Deferred returned by a callback
+    wait = ["add", ["wait"], ["wait"]]
+    for fi in (["fire", 3], ["fail", 1]):
+        hist([["pause"], fi] + tri + [rec(1), ["unpause"], rec(2)])
+        hist([wait, fi] + tri + [rec(1), ["resume", "val", 6], rec(2)])
+        hist([wait, fi] + tri + [rec(1), ["resume", "err", 2]] + tri + [rec(2)])
+        hist([fi, ["pause"]] + tri + [["unpause"]] + tri)
+        hist([fi, wait] + tri + [["pause"], ["resume", "val", 0]] + tri + [["unpause"]] + tri)
+        hist([["pause"], fi, ["extract"], ["unpause"], rec(1)])
+    hist([["fail", 1], ["pause"]])                                    # a failure behind a pause is still logged
+    hist([["pause"], ["fail", 1]])                                    # ... but not one that never reached the chain
     # every Deferred state with 0-3 callbacks attached x every matcher, then a recording callback
     pres = [[], [["add", ["const", 3], ["pass"]]], [["add", ["pass"], ["const", 0]], ["add", ["raise", 1], ["pass"]]],
             [rec(1), ["add", ["raise", 2], ["raise", 0]], ["add", ["recnone", 2], ["rec", 2]]]]
@@ -437,11 +494,11 @@ def generate(rng, tier):
             hist(pre + [["match", m], ["fire", 3], rec(3)])
             hist(pre + [["match", m], ["fail", 1], rec(3)])
     # all orders of match / fire / fail / add-callback up to length 4 over a reduced alphabet
-    alpha = [["match", ["noresult"]], ["match", ["succeeded", ["is", 3]]], ["match", ["failed", ["always"]]],
+    alpha = [["match", ["noresult"]], ["match", ["succeeded", ["is", 3]]], ["match", ["failed", ["never"]]],
              ["fire", 3], ["fail", 1], ["add", ["rec", 1], ["rec", 1]], ["add", ["raise", 2], ["const", 0]],
-             ["add", ["recnone", 2], ["pass"]]]
+             ["add", ["wait"], ["pass"]], ["pause"], ["unpause"], ["resume", "val", 6]]
     allh = [h for n in range(1, 5) for h in itertools.product(alpha, repeat=n)]
-    want = 1200 if tier == "quick" else 4680
+    want = 1500 if tier == "quick" else 16000
     stride = max(1, len(allh) // want)
     off = rng.randrange(stride)
     for k, h in enumerate(allh):
@@ -479,7 +536,7 @@ def shrink(case):
 
 
 def distribution(cases):
-    d = {"kind": {}, "length": {}, "ops": {}, "match_on_state": {}, "sync_positions": {}}
+    d = {"kind": {}, "length": {}, "ops": {}, "match_on_state": {}, "sync_positions": {}, "with_pause_or_wait": 0}
     for c in cases:
         d["kind"][c["kind"]] = d["kind"].get(c["kind"], 0) + 1
         if c["kind"] != "hist":
@@ -488,6 +545,7 @@ def distribution(cases):
         n = len(c["ops"])
         d["length"][n] = d["length"].get(n, 0) + 1
         fired = "unfired"
+        d["with_pause_or_wait"] += any(o[0] == "pause" or (o[0] == "add" and ["wait"] in o[1:]) for o in c["ops"])
         for o in c["ops"]:
             d["ops"][o[0]] = d["ops"].get(o[0], 0) + 1
             if o[0] == "match":
